@@ -282,12 +282,13 @@ func runExC(cEx *vt.C, s ExScript) (bool, string, *vt.Finding) {
 	// providers: sec serves the secrets exactly as envprovider does (the text
 	// goes through NewRetrievedFromYAML); src serves the configuration
 	rejected := false
+	curTexts := s.Texts // what the sec provider serves (swapped for the clean reference decode)
 	sec := fnFactory("sec", func(uri string) (*confmap.Retrieved, error) {
 		i, err := strconv.Atoi(strings.TrimPrefix(uri, "sec:N"))
 		if err != nil || i < 0 || i >= n {
 			return nil, fmt.Errorf("no such secret %q", uri)
 		}
-		r, err := confmap.NewRetrievedFromYAML(s.Texts[i])
+		r, err := confmap.NewRetrievedFromYAML(curTexts[i])
 		if err != nil {
 			rejected = true
 		}
@@ -422,11 +423,44 @@ func runExC(cEx *vt.C, s ExScript) (bool, string, *vt.Finding) {
 	}
 	// renderings of the decoded struct show only the marker
 	si := s.Shape.info()
-	clean := make([][]byte, n)
-	for j := range clean {
-		clean[j] = []byte(fmt.Sprintf("clean%d", j))
+	// Reference for "is this text part of every rendering of this struct anyway"
+	// (field names, defaults, `cors: null`): the same configuration decoded
+	// through the same pipeline with clean texts, so that it has the same
+	// structure as the decoded struct (defaults, nil pointers, allocated elements).
+	var cleanV any
+	cleanRef := func() any {
+		if cleanV != nil {
+			return cleanV
+		}
+		clean := make([][]byte, n)
+		for j := range clean {
+			// texts that are too short to be searched for stay as they are, so that
+			// nulls/empties leave the same pointers nil in the reference
+			if distinctive(string(s.Texts[j])) {
+				clean[j] = []byte(fmt.Sprintf("clean%d", j))
+			} else {
+				clean[j] = s.Texts[j]
+			}
+		}
+		cleanV = struct{}{}
+		curTexts = clean
+		defer func() { curTexts = s.Texts }()
+		r2, err := confmap.NewResolver(confmap.ResolverSettings{URIs: []string{"src:cfg"}, DefaultScheme: "sec", ProviderFactories: []confmap.ProviderFactory{src, sec}})
+		if err != nil {
+			return cleanV
+		}
+		defer func() { _ = r2.Shutdown(context.Background()) }()
+		c2, err := r2.Resolve(context.Background())
+		if err != nil {
+			return cleanV
+		}
+		t2 := reflect.New(s.Shape.typ(false))
+		prefill(t2.Elem(), s.Shape)
+		if err := c2.Unmarshal(t2.Interface()); err == nil {
+			cleanV = t2.Elem().Interface()
+		}
+		return cleanV
 	}
-	cleanV := newBuilder().instantiate(s.Shape, clean).Interface()
 	dec := target.Elem().Interface()
 	for _, p := range exRenderPaths {
 		if p.K == "xml" && si.xmlIfaceText {
@@ -441,7 +475,7 @@ func runExC(cEx *vt.C, s ExScript) (bool, string, *vt.Finding) {
 				continue
 			}
 			if cleanOuts == nil {
-				cleanOuts = render(p, cleanV, si)
+				cleanOuts = render(p, cleanRef(), si)
 			}
 			needle := strings.TrimSpace(string(s.Texts[i]))
 			inClean := false
